@@ -56,6 +56,7 @@ def explore(ctx):
         if len(samples) < 4:
             samples.append({"suite": s["suite"], "stmts": s["stmts"], "n_leaves": r["n_leaves"], "links": r["links"]})
     failures += C.proof_params_pin()
+    failures += C.domain_generator_pin()
     return {
         "evaluations": len(cs),
         "distinct_nontrivial": len(distinct),
